@@ -271,3 +271,192 @@ pub fn c13_native_value_mutations() {
     }
     println!("c13_native_value_mutations: {} cases checked", cases);
 }
+
+// ------------------------------------------------------------------------------------------------------------------
+// BOUNDED STAND-IN (not a proof) for the differential-evolution variation components (State-based, chunk patterns and
+// itertools adapters: out of reach of both verifiers).  DEMutation: accepts exactly the populations in the documented format
+// [base, 2y others]*, leaves one individual per group, keeps the dimension, and with f = 0 returns the bases unchanged.
+// DE crossovers: every gene of a child is the gene of the mutated or of the base individual at that position, at least one
+// comes from the base, pc = 1 copies the whole base, pc = 0 exactly one gene; the base population stays untouched.
+use crate::components::{mutation::de::DEMutation, recombination::de::{DEBinomialCrossover, DEExponentialCrossover}};
+
+// @native-harness
+pub fn c13_native_de_operators() {
+    let mut cases = 0u64;
+    let mut failures: Vec<(String, String, u64)> = Vec::new();
+    let mut record = |op: &str, what: String| {
+        if let Some(f) = failures.iter_mut().find(|f| f.0 == op) { f.2 += 1 } else { failures.push((op.to_string(), what, 1)); }
+    };
+    for dim in 1..=3usize {
+        let rp = RealProblem(dim);
+        // ---- DEMutation
+        for y in 1..=2u32 {
+            let size = (2 * y + 1) as usize;
+            for len in 0..=(3 * size) {
+                for f in [0.0f64, 0.5, 2.0] {
+                    let op: Box<dyn Component<RealProblem>> = DEMutation::new(y, f).expect("a documented parameter value was rejected");
+                    let pop: Vec<Vec<f64>> = (0..len).map(|i| (0..dim).map(|j| (i * 3 + j) as f64 * 0.5).collect()).collect();
+                    let below = vec![vec![9.0; dim]];
+                    let ctx = format!("op=DEMutation y={y} f={f} dimension={dim} population_size={len}");
+                    let r = mutate(&rp, op.as_ref(), below.clone(), pop.clone(), 1);
+                    if len % size == 0 {
+                        match r {
+                            Err(e) => record("DEMutation", format!("{ctx}: the operator fails on a population in the documented format: {e}")),
+                            Ok((h, b, cur)) => {
+                                if h != 2 || b != below { record("DEMutation", format!("{ctx}: the population below was disturbed")) }
+                                else if cur.len() != len / size { record("DEMutation", format!("{ctx}: {} individuals left, expected one per group = {}", cur.len(), len / size)) }
+                                else if cur.iter().any(|s| s.len() != dim) { record("DEMutation", format!("{ctx}: the dimension changed")) }
+                                else if f == 0.0 && cur.iter().enumerate().any(|(g, s)| *s != pop[g * size]) { record("DEMutation", format!("{ctx}: with f = 0 the bases must be returned unchanged")) }
+                                else if cur.iter().enumerate().any(|(g, s)| (0..dim).any(|j| {
+                                    let mut want = pop[g * size][j];
+                                    for p in 0..y as usize { want += f * (pop[g * size + 1 + 2 * p][j] - pop[g * size + 2 + 2 * p][j]); }
+                                    (s[j] - want).abs() > 1e-9 })) { record("DEMutation", format!("{ctx}: result is not base + f * sum of pair differences")) }
+                            }
+                        }
+                    } else if r.is_ok() {
+                        record("DEMutation", format!("{ctx}: a population that is not in the documented format [2y+1]* was accepted"));
+                    }
+                    cases += 1;
+                }
+            }
+        }
+        // ---- DE crossovers on [.., bases, mutations]
+        for n in 0..=3usize {
+            for seed in 0..32u64 {
+                for pc in [0.0f64, 0.5, 1.0] {
+                    for which in 0..2 {
+                        let name = if which == 0 { "DEBinomialCrossover" } else { "DEExponentialCrossover" };
+                        let op: Box<dyn Component<RealProblem>> = if which == 0 { DEBinomialCrossover::new(pc) } else { DEExponentialCrossover::new(pc) };
+                        let bases: Vec<Vec<f64>> = (0..n).map(|i| (0..dim).map(|j| (10 * i + j) as f64).collect()).collect();
+                        let mutations: Vec<Vec<f64>> = (0..n).map(|i| (0..dim).map(|j| -1.0 - (10 * i + j) as f64).collect()).collect();
+                        let ctx = format!("op={name} pc={pc} dimension={dim} population_size={n} seed={seed}");
+                        match mutate(&rp, op.as_ref(), bases.clone(), mutations.clone(), seed) {
+                            Err(e) => record(name, format!("{ctx}: the operator fails on a valid population: {e}")),
+                            Ok((h, b, cur)) => {
+                                if h != 2 || b != bases { record(name, format!("{ctx}: the base population was disturbed or the stack height changed")); }
+                                else if cur.len() != n || cur.iter().any(|c| c.len() != dim) { record(name, format!("{ctx}: number of children or their length is wrong")); }
+                                else {
+                                    for i in 0..n {
+                                        let from_base = (0..dim).filter(|&j| cur[i][j] == bases[i][j]).count();
+                                        if (0..dim).any(|j| cur[i][j] != bases[i][j] && cur[i][j] != mutations[i][j]) { record(name, format!("{ctx}: child {i} holds a gene of neither parent: {:?}", cur[i])); }
+                                        else if from_base == 0 { record(name, format!("{ctx}: child {i} took no gene from the base")); }
+                                        else if pc == 1.0 && from_base != dim { record(name, format!("{ctx}: pc = 1 must copy the whole base")); }
+                                        else if pc == 0.0 && from_base != 1 { record(name, format!("{ctx}: pc = 0 must copy exactly one gene of the base, copied {from_base}")); }
+                                    }
+                                }
+                            }
+                        }
+                        cases += 1;
+                    }
+                }
+            }
+        }
+    }
+    for (_, first, count) in &failures { eprintln!("COUNTEREXAMPLE {first}   [{count} failing cases for this operator]"); }
+    if !failures.is_empty() { panic!("DE variation operator violates C13") }
+    println!("c13_native_de_operators: {} cases checked", cases);
+}
+
+// ------------------------------------------------------------------------------------------------------------------
+// BOUNDED STAND-IN (not a proof) for the crossover COMPONENTS (recombine = RNG draws + functional kernel + OptionalPair):
+// "children of the parents' length in which each position holds one of the two parental genes (for arithmetic crossover a
+// convex combination) with both genes of a position conserved across the two children"; cycle crossover yields permutations.
+use crate::components::recombination::{ArithmeticCrossover, CycleCrossover};
+
+// @native-harness
+pub fn c13_native_crossover_genes() {
+    let mut cases = 0u64;
+    let mut failures: Vec<(String, String, u64)> = Vec::new();
+    let mut record = |op: &str, what: String| {
+        if let Some(f) = failures.iter_mut().find(|f| f.0 == op) { f.2 += 1 } else { failures.push((op.to_string(), what, 1)); }
+    };
+    for seed in 0..64u64 {
+        for both in [false, true] {
+            // ---- discrete genes (tags): uniform, 1-, 2- and 3-point crossover on two pairs of length-5 parents
+            let vp = VecProblem;
+            let parents: Vec<Vec<u8>> = (0..4).map(|i| (0..4).map(|j| (10 * i + j) as u8).collect()).collect();
+            let ops: Vec<(String, Box<dyn Component<VecProblem>>)> = vec![
+                ("UniformCrossover".into(), UniformCrossover::new(1.0, both)), ("NPointCrossover(1)".into(), NPointCrossover::new(1, 1.0, both)),
+                ("NPointCrossover(2)".into(), NPointCrossover::new(2, 1.0, both)), ("NPointCrossover(3)".into(), NPointCrossover::new(3, 1.0, both)),
+            ];
+            for (name, op) in &ops {
+                let ctx = format!("op={name} insert_both={both} seed={seed}");
+                match mutate(&vp, op.as_ref(), vec![vec![200u8; 4]], parents.clone(), seed) {
+                    Err(e) => record(name, format!("{ctx}: the operator fails on a valid population: {e}")),
+                    Ok((_, _, ch)) => {
+                        let per = if both { 2 } else { 1 };
+                        if ch.len() != 2 * per { record(name, format!("{ctx}: wrong number of children {}", ch.len())); cases += 1; continue }
+                        for pair in 0..2 {
+                            let (p1, p2) = (&parents[2 * pair], &parents[2 * pair + 1]);
+                            let c1 = &ch[per * pair];
+                            if c1.len() != 4 { record(name, format!("{ctx}: child length {} differs from the parents' length", c1.len())); continue }
+                            for j in 0..4 {
+                                if c1[j] != p1[j] && c1[j] != p2[j] { record(name, format!("{ctx}: position {j} of child {c1:?} holds neither parental gene ({p1:?}, {p2:?})")) }
+                            }
+                            if both {
+                                let c2 = &ch[per * pair + 1];
+                                if c2.len() != 4 { record(name, format!("{ctx}: child length differs from the parents' length")); continue }
+                                for j in 0..4 {
+                                    let ok = (c1[j] == p1[j] && c2[j] == p2[j]) || (c1[j] == p2[j] && c2[j] == p1[j]);
+                                    if !ok { record(name, format!("{ctx}: the two genes of position {j} are not conserved across the children {c1:?} {c2:?} of {p1:?} {p2:?}")) }
+                                }
+                            }
+                        }
+                    }
+                }
+                cases += 1;
+            }
+            // ---- arithmetic crossover: convex combination, genes conserved in sum
+            let rp = RealProblem(3);
+            let rparents: Vec<Vec<f64>> = vec![vec![0.0, 1.0, -2.0], vec![4.0, 1.0, 6.0]];
+            let op: Box<dyn Component<RealProblem>> = ArithmeticCrossover::new(1.0, both);
+            let ctx = format!("op=ArithmeticCrossover insert_both={both} seed={seed}");
+            match mutate(&rp, op.as_ref(), vec![vec![9.0; 3]], rparents.clone(), seed) {
+                Err(e) => record("ArithmeticCrossover", format!("{ctx}: the operator fails on a valid population: {e}")),
+                Ok((_, _, ch)) => {
+                    if ch.len() != if both { 2 } else { 1 } || ch.iter().any(|c| c.len() != 3) { record("ArithmeticCrossover", format!("{ctx}: wrong number or length of children")) }
+                    else {
+                        for j in 0..3 {
+                            let (lo, hi) = (rparents[0][j].min(rparents[1][j]), rparents[0][j].max(rparents[1][j]));
+                            if ch.iter().any(|c| c[j] < lo - 1e-12 || c[j] > hi + 1e-12) { record("ArithmeticCrossover", format!("{ctx}: position {j} is not a convex combination of the parental genes: {ch:?}")) }
+                            if both && ((ch[0][j] + ch[1][j]) - (rparents[0][j] + rparents[1][j])).abs() > 1e-9 { record("ArithmeticCrossover", format!("{ctx}: the genes of position {j} are not conserved across the children: {ch:?}")) }
+                        }
+                    }
+                }
+            }
+            cases += 1;
+        }
+    }
+    // ---- cycle crossover on all pairs of permutations of length 4
+    let perms: Vec<Vec<usize>> = {
+        let mut out = Vec::new();
+        for a in 0..4 { for b in 0..4 { for c in 0..4 { for d in 0..4 {
+            let p = vec![a, b, c, d]; let mut s = p.clone(); s.sort_unstable();
+            if s == vec![0, 1, 2, 3] { out.push(p) }
+        }}}}
+        out
+    };
+    let pp = PermProblem(4);
+    for p1 in &perms { for p2 in &perms { for both in [false, true] {
+        let op: Box<dyn Component<PermProblem>> = CycleCrossover::new(1.0, both);
+        let ctx = format!("op=CycleCrossover insert_both={both} parents={p1:?},{p2:?}");
+        match mutate(&pp, op.as_ref(), vec![vec![3, 2, 1, 0]], vec![p1.clone(), p2.clone()], 3) {
+            Err(e) => record("CycleCrossover", format!("{ctx}: the operator fails on a valid population: {e}")),
+            Ok((_, _, ch)) => {
+                if ch.len() != if both { 2 } else { 1 } { record("CycleCrossover", format!("{ctx}: wrong number of children")) }
+                for c in &ch {
+                    let mut s = c.clone(); s.sort_unstable();
+                    if s != vec![0, 1, 2, 3] { record("CycleCrossover", format!("{ctx}: child {c:?} is not a permutation")) }
+                    else if (0..4).any(|j| c[j] != p1[j] && c[j] != p2[j]) { record("CycleCrossover", format!("{ctx}: child {c:?} holds a gene of neither parent at some position")) }
+                }
+                if both && ch.len() == 2 && (0..4).any(|j| !((ch[0][j] == p1[j] && ch[1][j] == p2[j]) || (ch[0][j] == p2[j] && ch[1][j] == p1[j]))) {
+                    record("CycleCrossover", format!("{ctx}: genes are not conserved across the children {ch:?}"))
+                }
+            }
+        }
+        cases += 1;
+    }}}
+    for (_, first, count) in &failures { eprintln!("COUNTEREXAMPLE {first}   [{count} failing cases for this operator]"); }
+    if !failures.is_empty() { panic!("crossover component violates C13") }
+    println!("c13_native_crossover_genes: {} cases checked", cases);
+}
